@@ -328,15 +328,26 @@ Section Cycle.
     - eapply reachS; [apply IH; exact R1|exact E].
   Qed.
 
-  (* seen = [s_n; ...; s_1] where s_1 yields s_2 ... s_n yields i *)
-  Fixpoint fchain_to (seen : list nat) (i : nat) : Prop :=
+  (* seen = [s_n; ...; s_1]: the chain of yielded objects h = s_1 -> s_2 -> ... -> s_n -> i that one run of the loop of
+     wait() has followed, starting at h *)
+  Fixpoint fchain_from (h : nat) (seen : list nat) (i : nat) : Prop :=
     match seen with
-    | [] => True
-    | s :: rest => fedge s i /\ fchain_to rest s
+    | [] => h = i
+    | s :: rest => fedge s i /\ fchain_from h rest s
     end.
 
+  Lemma fchain_reach h seen : forall i, fchain_from h seen i -> h = i \/ reach h i.
+  Proof.
+    induction seen as [|s rest IH]; intros i H; simpl in H; [left; exact H|].
+    destruct H as [E H]. right. destruct (IH s H) as [->|R].
+    - apply reach1. left. exact E.
+    - eapply reachS; [exact R|left; exact E].
+  Qed.
+
   Definition reaches_cycle (i : nat) : Prop := exists c, (c = i \/ reach i c) /\ reach c c.
-  Definition long_forward (n : nat) : Prop := exists seen i, n <= length seen /\ fchain_to seen i.
+  (* the chain starts at the node o that is waited for, or at a node o reaches (a dependency evaluated on the way) *)
+  Definition from (o h : nat) : Prop := h = o \/ reach o h.
+  Definition long_forward (o n : nat) : Prop := exists h seen j, from o h /\ fchain_from h seen j /\ n <= length seen.
 
   Variables (bound bound2 : nat) (isp : nat -> bool) (spec : bool).
 
@@ -346,18 +357,24 @@ Section Cycle.
     | [] => 0
     | s :: rest => (if isp s && isp i then 1 else 0) + pcount rest s
     end.
-  Definition long_poly (n : nat) : Prop := exists seen i, n <= pcount seen i /\ fchain_to seen i.
-  Definition too_long : Prop := long_forward bound \/ long_poly bound2.
+  Definition long_poly (o n : nat) : Prop := exists h seen j, from o h /\ fchain_from h seen j /\ n <= pcount seen j.
+  Definition too_long (o : nat) : Prop := long_forward o bound \/ long_poly o bound2.
 
-  Definition cyc_inv (st : state) (seen : list nat) (p i : nat) : Prop :=
+  Lemma too_long_mono o d : reach o d -> too_long d -> too_long o.
+  Proof.
+    intros R [(h & seen & j & F & C & L)|(h & seen & j & F & C & L)]; [left|right]; exists h, seen, j;
+      (split; [|split; [exact C|exact L]]); right; destruct F as [->|F]; [exact R|eapply reach_trans; eauto | exact R|eapply reach_trans; eauto].
+  Qed.
+
+  Definition cyc_inv (st : state) (seen : list nat) (p h i : nat) : Prop :=
     settled_sound G st /\
     (forall k, is_await st k = true -> reach k i) /\
     (forall k, In k seen -> reach k i) /\
-    fchain_to seen i /\ p = pcount seen i.
+    fchain_from h seen i /\ p = pcount seen i.
 
-  Definition cyc_res (i : nat) (r : res) : Prop :=
+  Definition cyc_res (h i : nat) (r : res) : Prop :=
     match r with
-    | RRaise ECycle _ => reaches_cycle i \/ too_long
+    | RRaise ECycle _ => reaches_cycle i \/ too_long h
     | _ => True
     end.
 
@@ -386,15 +403,15 @@ Section Cycle.
     - inversion H; subst. exists d, st. repeat split; auto. left; reflexivity.
   Qed.
 
-  Lemma wait_top_cycle : forall fuel st seen p i,
-    cyc_inv st seen p i -> cyc_res i (wait_top bound bound2 isp spec G fuel st seen p i).
+  Lemma wait_top_cycle : forall fuel st seen p h i,
+    cyc_inv st seen p h i -> cyc_res h i (wait_top bound bound2 isp spec G fuel st seen p i).
   Proof.
-    induction fuel as [|f IH]; intros st seen p i (Ss & Ia & Is & If & Ip); simpl; auto.
+    induction fuel as [|f IH]; intros st seen p h i (Ss & Ia & Is & If & Ip); simpl; auto.
     destruct (nth_error G i) as [nd|] eqn:En; simpl; auto.
     destruct (stop_check bound bound2 seen p i) eqn:Es; simpl.
     { unfold stop_check in Es. apply orb_true_iff in Es. destruct Es as [Es|Es]; [apply orb_true_iff in Es; destruct Es as [Es|Es]|].
-      - right. left. exists seen, i. split; [apply Nat.leb_le; exact Es|exact If].
-      - right. right. exists seen, i. split; [apply Nat.leb_le in Es; subst p; exact Es|exact If].
+      - right. left. exists h, seen, i. split; [left; reflexivity|split; [exact If|apply Nat.leb_le; exact Es]].
+      - right. right. exists h, seen, i. split; [left; reflexivity|split; [exact If|apply Nat.leb_le in Es; subst p; exact Es]].
       - left. apply existsb_exists in Es. destruct Es as [k [Hk Ek]]. apply Nat.eqb_eq in Ek. subst k.
         exists i. split; auto. }
     destruct (is_await st i) eqn:Ea; simpl.
@@ -402,7 +419,7 @@ Section Cycle.
     (* continuing with a yielded object j *)
     assert (K : forall v s, awaiting s = awaiting (set_await st i true) -> settled_sound G s ->
               (forall j, v = NFwd j -> fedge i j) ->
-              cyc_res i match v with
+              cyc_res h i match v with
                         | NVal z => RVal z (set_await s i false)
                         | NFwd j => wait_top bound bound2 isp spec G f (set_await s i false) (i :: seen) (next_p isp p i j) j end).
     { intros [z|j] s E Sss Hf; simpl; auto.
@@ -410,7 +427,7 @@ Section Cycle.
       assert (Ee : edge i j) by (left; exact Ef).
       assert (Aw : awaiting (set_await s i false) = awaiting st).
       { unfold set_await in *; simpl in *. rewrite E. apply set_nth_restore. exact Ea. }
-      pose proof (IH (set_await s i false) (i :: seen) (next_p isp p i j) j) as R.
+      pose proof (IH (set_await s i false) (i :: seen) (next_p isp p i j) h j) as R.
       destruct (wait_top bound bound2 isp spec G f (set_await s i false) (i :: seen) (next_p isp p i j) j) as [z s'|[| |] s'|]; simpl in R |- *; auto.
       destruct R as [R|R]; auto.
       - split; [exact Sss|]. split; [|split].
@@ -441,9 +458,11 @@ Section Cycle.
                       (fun s d => wait_top_flags bound bound2 isp spec G f s [] 0 d)
                       (fun s d Sx => wait_top_sound G bound bound2 isp spec f s [] 0 d Sx) Ss Ed) as (d & s & Hin & Haw & Hss & Hr).
           assert (Ee : edge i d) by (right; unfold dedge; rewrite En; exact Hin).
-          pose proof (IH s [] 0 d) as R. rewrite Hr in R. simpl in R.
-          destruct R as [R|R]; auto.
-          -- split; [exact Hss|]. split; [|split; [intros k []|split; [exact I|reflexivity]]].
+          assert (Rhd : reach h d).
+          { destruct (fchain_reach h seen i If) as [->|Rh]; [apply reach1; exact Ee|eapply reachS; [exact Rh|exact Ee]]. }
+          pose proof (IH s [] 0 d d) as R. rewrite Hr in R. simpl in R.
+          destruct R as [R|R]; [| |right; eapply too_long_mono; [exact Rhd|exact R]].
+          -- split; [exact Hss|]. split; [|split; [intros k []|split; [reflexivity|reflexivity]]].
              intros k Hk. unfold is_await in Hk. rewrite Haw in Hk. simpl in Hk.
              destruct (Nat.eq_dec k i) as [->|Nk]; [apply reach1; exact Ee|].
              rewrite nth_set_nth_neq in Hk by exact Nk.
@@ -455,11 +474,11 @@ Section Cycle.
   (* from a clean start: no flag set, nothing seen *)
   Theorem cycle_sound fuel i st' :
     wait bound bound2 isp spec G fuel (init_state G) i = RRaise ECycle st' ->
-    reaches_cycle i \/ long_forward bound \/ long_poly bound2.
+    reaches_cycle i \/ long_forward i bound \/ long_poly i bound2.
   Proof.
-    intros H. pose proof (wait_top_cycle fuel (init_state G) [] 0 i) as R.
+    intros H. pose proof (wait_top_cycle fuel (init_state G) [] 0 i i) as R.
     unfold wait in H. rewrite H in R. apply R.
-    split; [apply settled_sound_init|]. split; [|split; [intros k []|split; [exact I|reflexivity]]].
+    split; [apply settled_sound_init|]. split; [|split; [intros k []|split; [reflexivity|reflexivity]]].
     intros k Hk. exfalso. unfold is_await, init_state in Hk. simpl in Hk.
     revert k Hk. generalize G as l. induction l as [|x xs IHl]; intros [|k] Hk; simpl in Hk; try discriminate. eauto.
   Qed.
